@@ -5,11 +5,13 @@ import (
 	"fmt"
 	"os"
 	"path/filepath"
+	"runtime/debug"
 	"strconv"
 )
 
 // Main is the body of every cmd/cNN binary:
-//   cNN [--tier quick|thorough] [--replay file] [--seed n] [--root /verif]
+//
+//	cNN [--tier quick|thorough] [--replay file] [--seed n] [--root /verif]
 func Main(id string, run func(*Run), replay func(*Run, *Violation)) {
 	fs := flag.NewFlagSet(id, flag.ExitOnError)
 	tier := fs.String("tier", envOr("VERIF_TIER", "quick"), "quick|thorough")
@@ -17,6 +19,10 @@ func Main(id string, run func(*Run), replay func(*Run, *Violation)) {
 	seed := fs.Int64("seed", envInt("VERIF_SEED", 1), "seed (checks enumerate, they do not sample; recorded only)")
 	root := fs.String("root", "", "verif root (default: directory above the binary)")
 	fs.Parse(os.Args[1:])
+	// executions are short-lived object graphs: trade memory for fewer collections
+	if os.Getenv("GOGC") == "" {
+		debug.SetGCPercent(400)
+	}
 	r := NewRun(id, *tier, *seed)
 	r.Root = *root
 	if r.Root == "" {
